@@ -147,6 +147,55 @@ def witnesses(wd, extends, constants, goals, prefix, timeout=600, workers=4, **k
     return out, unreached
 
 
+def trace_validate(wd, base, constants, traces, proj, name, act_var="last", extra_ext="", timeout=1800, extra_defs=""):
+    """Code -> spec: are executions recorded from the real objects behaviours of the specification `base`?
+
+    traces: {tid: [{"a": <recorded environment action, shaped like the spec's history variable `act_var`>,
+                    "proj": <projection of the real state after the step>}, ...]}
+    proj:   TLA+ expression over base's variables shaped like the recorded projection.
+    A generated module <name>.tla re-uses base's Init/Next: a step is allowed iff Next can take it, records the same
+    action and leads to a state with the recorded projection; everything not recorded is left to TLC.  All traces are
+    validated in one invocation (one initial state per trace id; the furthest line reached is kept in a TLC register).
+    Returns ({tid: (reached, total)}, TlcResult)."""
+    from . import tlc as _tlc
+    tids = sorted(traces)
+    path = wd.file(name + ".ndjson")
+    with open(path, "w") as f:
+        for t in tids:
+            for line in traces[t]:
+                f.write(json.dumps({"tid": t, "a": line["a"], "proj": line["proj"]}) + "\n")
+    mod = """---- MODULE %(name)s_T ----
+EXTENDS %(base)s, Json, IOUtils, TLCExt%(ext)s
+T_All == ndJsonDeserialize(IOEnv.TRACE_FILE)
+T_Tids == {T_All[k].tid : k \\in DOMAIN T_All}
+T_Of == [t \\in T_Tids |-> SelectSeq(T_All, LAMBDA r : r.tid = t)]
+VARIABLES t_id, t_l
+T_Proj == %(proj)s
+T_Init == Init /\\ t_id \\in T_Tids /\\ t_l = 1
+T_Next == /\\ t_l <= Len(T_Of[t_id])
+          /\\ Next
+          /\\ %(act)s' = T_Of[t_id][t_l].a
+          /\\ T_Proj' = T_Of[t_id][t_l].proj
+          /\\ t_l' = t_l + 1 /\\ t_id' = t_id
+T_Spec == T_Init /\\ [][T_Next]_<<vars, t_id, t_l>>
+T_Mark == TLCSet(t_id, IF TLCGet(t_id) < t_l THEN t_l ELSE TLCGet(t_id))
+T_RegInit == \\A t \\in T_Tids : TLCSet(t, 0)
+T_Post == \\A t \\in T_Tids : PrintT(<<"TRACE", t, TLCGet(t) - 1, Len(T_Of[t])>>)
+====
+""" % {"name": name, "base": base, "ext": extra_ext, "proj": proj, "act": act_var}
+    with open(wd.file(name + "_T.tla"), "w") as f:
+        f.write(mod)
+    write_model(wd, name, name + "_T", constants, spec="T_Spec", constraint="T_Mark", postcondition="T_Post",
+                extra_defs=(extra_defs + "\n" if extra_defs else "") + "ASSUME T_RegInit")
+    r = _tlc.run(name + ".tla", name + ".cfg", workers=1, cwd=wd.path, env={"TRACE_FILE": path}, timeout=timeout)
+    out = {}
+    for v in _tlc.printed_tuples(r.stdout, "TRACE"):
+        out[v[1]] = (v[2], v[3])
+    if set(out) != set(tids):
+        raise RuntimeError("trace validation of %s judged %d of %d traces\n%s" % (name, len(out), len(tids), r.stdout[-2500:]))
+    return out, r
+
+
 # ------------------------------------------------------------------------------ known findings
 def load_known():
     p = os.path.join(HERE, "known_findings.json")
